@@ -419,7 +419,8 @@ def rule_quadtree_schema(ck):
         shp = s_.args[0].elts if len(s_.args) == 1 and isinstance(s_.args[0], ast.Tuple) else s_.args
         src = strip_shape(s_.func.value)
         kord = kw(s_, 'order')
-        good = len(shp) == 2 and u(shp[0]).startswith('builtins.len(') and 'quadkeys' in u(shp[0]) and u(shp[1]) == 'builtins.len(%s)' % u(mws) \
+        good = len(shp) == 2 and (u(shp[0]).startswith('builtins.len(') and 'quadkeys' in u(shp[0]) or (qk is not None and u(shp[0]) == 'builtins.len(%s)' % u(qk))) \
+            and u(shp[1]) == 'builtins.len(%s)' % u(mws) \
             and (kord is None or const_value(kord) == 'C') and isinstance(src, ast.Subscript) and u(src.slice).replace(' ', '').strip('()') == ':,-1'
     (o.ok('data[:, -1].reshape(cells, magnitudes)') if good else
      o.fail('the rates are `%s`: the rate column must be reshaped row-major into (number of cells, number of magnitude bins)' % u(rates)[:110]))
